@@ -7,5 +7,10 @@ fn main() {
     if std::fs::read_to_string(&path).ok().as_deref() != Some(src.as_str()) {
         std::fs::write(&path, src).unwrap();
     }
+    let src = matrixdef::c33::flows_source();
+    let path = std::path::Path::new(&std::env::var("CARGO_MANIFEST_DIR").unwrap()).join("src/t33.rs");
+    if std::fs::read_to_string(&path).ok().as_deref() != Some(src.as_str()) {
+        std::fs::write(&path, src).unwrap();
+    }
     stageleft_tool::gen_final!();
 }
